@@ -26,6 +26,9 @@ def env : Env where
 
 def S : SE Sym Nat := symSE env
 
+/-- record key of the scratchpad of owner `o`: a code no content of the universe has (`raw` ids stay below 2000) -/
+def padKey (o : Nat) : Nat := (Sym.raw (1000000 + o)).code
+
 def contents : List Sym :=
   (List.range nGen).map Sym.raw ++
   (List.range nSets).flatMap fun k => Sym.wrap false k :: ((List.range 3).map fun i => Sym.ech k (chunkClass k i)).eraseDups
@@ -119,7 +122,7 @@ def step (_ : Unit) (ws : List String) : Unit × String :=
   | ["chunk", c, r] =>
     match parseContent c, parseReply r with
     | some c, some r =>
-      match chunkGet S c.code r with
+      match chunkGet S padKey c.code r with
       | .ok chunk => ((), s!"ok {contentName chunk.value}")
       | .error e => ((), s!"err {getErrName e}")
     | _, _ => ((), "bad-op")
@@ -136,7 +139,7 @@ def step (_ : Unit) (ws : List String) : Unit × String :=
           else match contents.find? (fun s => s.code == a) with
             | some s => .ok ⟨some .chunk, .chunk s⟩
             | none => .err .notFound
-        match dataGetPublic S replies 4 [code] (Sym.wrap false k).code with
+        match dataGetPublic S padKey replies 4 [code] (Sym.wrap false k).code with
         | .ok (.raw id) => ((), if 1000 ≤ id then s!"ok d{id - 1000}" else "ok ?")
         | .ok _ => ((), "ok ?")
         | .error e => ((), s!"err {getErrName e}")
@@ -146,7 +149,7 @@ def step (_ : Unit) (ws : List String) : Unit × String :=
     match key.toNat?, parseReply r with
     | some key, some r =>
       if key < 3 then
-        match getVault key r with
+        match getVault padKey key r with
         | .ok p => ((), s!"ok {p.owner}.{p.ctr}.{p.ver}")
         | .error e => ((), s!"err {vaultErrName e}")
       else ((), "bad-op")
@@ -156,7 +159,7 @@ def step (_ : Unit) (ws : List String) : Unit × String :=
     | some key, some (.err (.split m)) =>
       if key < 3 ∧ m.length ≤ 6 ∧ 0 < m.length then
         let outcomes := (ordersOf m).map fun m' =>
-          match getVault key (.err (.split m')) with
+          match getVault padKey key (.err (.split m')) with
           | .ok p => s!"ok {p.owner}.{p.ctr}.{p.ver}"
           | .error e => s!"err {vaultErrName e}"
         ((), " | ".intercalate (sortStrings outcomes.eraseDups))
@@ -173,7 +176,7 @@ def searchCandidates : List String :=
     [("g0", "g0"), ("g0", "g1"), ("m0", "m1")].filterMap fun (want, got) =>
       match parseContent want, parseContent got with
       | some w, some g =>
-        match chunkGet S w.code (.ok ⟨some .chunk, .chunk g⟩) with
+        match chunkGet S padKey w.code (.ok ⟨some .chunk, .chunk g⟩) with
         | .ok c => if c.value.code ≠ w.code then some s!"chunk {want} ok=c:{got}" else none
         | .error _ => none
       | _, _ => none
@@ -188,10 +191,11 @@ def searchCandidates : List String :=
   let pads : List (Pad × String) :=
     [({ owner := 0, ctr := 3, valid := true, ver := 0 }, "v"), ({ owner := 1, ctr := 9, valid := true, ver := 1 }, "v"),
      ({ owner := 0, ctr := 9, valid := false, ver := 1 }, "n"), ({ owner := 0, ctr := 4, valid := true, ver := 1 }, "v")]
+  -- an unauthentic or outdated version returned, or an error although an authentic version was received
   let bad (reply : Reply Sym) (valids : List Pad) : Bool :=
-    match getVault (B := Sym) 0 reply with
+    match getVault (B := Sym) padKey 0 reply with
     | .ok p => !(p.owner == 0 && p.valid) || valids.any (fun q => q.ctr > p.ctr)
-    | .error _ => false
+    | .error _ => !valids.isEmpty
   let auth (l : List (Pad × String)) : List Pad := (l.map (·.1)).filter fun p => p.owner == 0 && p.valid
   let single : List String := pads.filterMap fun (p, sg) =>
     if bad (.ok ⟨some .scratchpad, .pad p⟩) (auth [(p, sg)]) then some s!"vault 0 ok=s:{padName p sg}" else none
